@@ -65,7 +65,7 @@ pub(crate) fn gen_doc(rng: &mut Rng, creation: bool) -> Doc {
         creation,
         rp_id: if rng.bool() { Some("example.com".into()) } else { None },
         user_id: rng.bytes(*rng.clone().pick(&[0usize, 1, 2, 16, 31, 64])),
-        challenge: rng.bytes(*rng.clone().pick(&[0usize, 1, 2, 3, 16, 32, 100])),
+        challenge: rng.bytes(*rng.clone().pick(&[0usize, 1, 2, 3, 16, 32, 100, 32, 16, 4096, 4097, 5000])),
         algs: (0..rng.range(0, 4)).map(|_| *rng.pick(&[-7i64, -257, -8, -35, -36, -37])).collect(),
         timeout: if rng.bool() { Some(*rng.pick(&[0u32, 1, 1800, 60_000, 300_000, 4_000_000_000, 16_777_217, 18_000_001, 604_800_123, u32::MAX, u32::MAX - 1])) } else { None },
         creds: if rng.bool() { Some(gen_descs(rng)) } else { None },
@@ -322,16 +322,33 @@ pub(crate) fn render(d: &Doc, p: &Present, rng: &mut Rng) -> Value {
     Value::Object(top)
 }
 
+/// The routes serde_json offers for getting a document into a value: from a string, from bytes, from a
+/// reader, and from a tree (`from_value`, which - unlike the others - announces sequence lengths).
+fn parse_by_route<T: serde::de::DeserializeOwned>(text: &str) -> Result<T, String> {
+    let route = crate::rng::fnv_str(text) % 4;
+    // (the tree cannot hold the out-of-range numbers and the nesting that some unknown members carry)
+    let tree_ok = !text.contains("E+400") && !text.contains("[[[[[[[[[[[[[[[[");
+    match route {
+        1 => serde_json::from_slice(text.as_bytes()).map_err(|e| format!("{e} (from_slice)")),
+        2 => serde_json::from_reader(text.as_bytes()).map_err(|e| format!("{e} (from_reader)")),
+        3 if tree_ok => {
+            let tree: Value = serde_json::from_str(text).map_err(|e| format!("{e} (document as a tree)"))?;
+            serde_json::from_value(tree).map_err(|e| format!("{e} (from_value)"))
+        }
+        _ => serde_json::from_str(text).map_err(|e| e.to_string()),
+    }
+}
+
 fn parse_reser(creation: bool, text: &str) -> Result<Value, String> {
     // the parsed value as re-serialised JSON, plus its Debug text: members that are skipped when
     // serialising (an empty list, say) still take part in the comparison
     if creation {
-        let v: CredentialCreationOptions = serde_json::from_str(text).map_err(|e| e.to_string())?;
+        let v: CredentialCreationOptions = parse_by_route(text)?;
         let mut j = serde_json::to_value(&v).map_err(|e| e.to_string())?;
         j["(value as Debug text)"] = json!(format!("{v:?}"));
         Ok(j)
     } else {
-        let v: CredentialRequestOptions = serde_json::from_str(text).map_err(|e| e.to_string())?;
+        let v: CredentialRequestOptions = parse_by_route(text)?;
         let mut j = serde_json::to_value(&v).map_err(|e| e.to_string())?;
         j["(value as Debug text)"] = json!(format!("{v:?}"));
         Ok(j)
